@@ -304,6 +304,9 @@ func (p *pathState) assert(c value, label string, fr *frame) {
 		panic(violationStop{})
 	case *Term:
 		r, model := p.solver().CheckModel(p.pc, tNot(c), p.inputVars())
+		if r == RUnknown {
+			r, model = p.w.secondOpinion(p.pc, tNot(c), p.inputVars())
+		}
 		switch r {
 		case RUnsat:
 			eng.count(&eng.stats.Discharged)
@@ -397,6 +400,7 @@ type Stats struct {
 	Discharged         int64 `json:"discharged"`
 	DischargedConcrete int64 `json:"discharged_concrete"`
 	Inconclusive       int64 `json:"inconclusive"`
+	SecondOpinions     int64 `json:"second_solver_queries"`
 	FuelAborts         int64 `json:"fuel_aborts"`
 	BoundAborts        int64 `json:"bound_aborts"`
 	AssumeAborts       int64 `json:"assume_aborts"`
@@ -552,6 +556,21 @@ type worker struct {
 	eng    *engine
 	m      *machine
 	solver *Solver
+	alt    *Solver // the other solver, started lazily for obligations the primary one leaves undecided
+}
+
+// secondOpinion re-discharges an obligation the primary solver answered "unknown" with the other solver (cvc5 <-> z3 5.1)
+// and three times the time limit. Only obligations go through it (not feasibility checks).
+func (w *worker) secondOpinion(pc []*Term, extra *Term, vars map[string]Sort) (Result, map[string]any) {
+	if w.alt == nil {
+		kind := SolverZ3New
+		if w.solver.kind != SolverCVC5 {
+			kind = SolverCVC5
+		}
+		w.alt = NewSolver(kind, w.solver.timeoutMs*3, nil)
+	}
+	w.eng.count(&w.eng.stats.SecondOpinions)
+	return w.alt.CheckModel(pc, extra, vars)
 }
 
 func newMachine(prog *ssa.Program, cfg *HarnessConfig) *machine {
